@@ -393,8 +393,19 @@ pub fn run_case(c: &Case, drv: &mut Drv, rep: &mut Report) {
         for b in &dump.blocks {
             req.push_str(&format!(" {}:{}", b.offset, b.entries.iter().map(|e| hex(&e.0)).collect::<Vec<_>>().join(",")));
         }
+        // TableBuilder::finalize flushes the last data block and notifies the filter builder with the
+        // offset behind it (block contents + 5-byte descriptor): trailing empty filters appear when the
+        // last block ends in a later 2 KiB range than it starts
+        if let Some(last) = dump.blocks.last() {
+            req.push_str(&format!(" {}:", last.offset + last.size + 5));
+        }
         let ans = drv.ask(&req);
         if ans != "no-model" && ans != hex(fb) {
+            if std::env::var("VERIF_TRACE").is_ok() {
+                let real = hex(fb);
+                let pos = ans.bytes().zip(real.bytes()).position(|(a, b)| a != b);
+                eprintln!("filter drift: offsets {:?} sizes {:?} model-len {} real-len {} first-diff {:?}\nmodel tail {}\nreal  tail {}", dump.blocks.iter().map(|b| b.offset).collect::<Vec<_>>(), dump.blocks.iter().map(|b| b.entries.len()).collect::<Vec<_>>(), ans.len(), real.len(), pos, &ans[ans.len().saturating_sub(120)..], &real[real.len().saturating_sub(120)..]);
+            }
             rep.drift.push(format!("table filter block differs from the model fed with the observed block offsets :: {line}"));
             rep.count("model_drift");
         }
@@ -565,6 +576,27 @@ pub fn gen_entries(rng: &mut Prng, max_keys: usize, big: bool) -> Vec<Entry> {
     out
 }
 
+/// a long table: hundreds of keys with incompressible values so that the file spans many 2 KiB filter
+/// ranges and its blocks start at every residue of the file offset modulo 2048
+pub fn gen_long_entries(rng: &mut Prng) -> Vec<Entry> {
+    let n = rng.range(150, 700) as usize;
+    let base = rng.below(1000);
+    let mut out = vec![];
+    for i in 0..n {
+        let k = format!("k{:06}", base + i as u64).into_bytes();
+        let nv = if rng.chance(1, 20) { rng.range(2, 20) } else { 1 };
+        let mut seqs: Vec<u64> = (0..nv).map(|_| rng.below(200)).collect();
+        seqs.sort();
+        seqs.dedup();
+        seqs.reverse();
+        for s in seqs {
+            let len = rng.range(20, 130) as usize;
+            out.push((k.clone(), s, 1u8, rng.bytes(len)));
+        }
+    }
+    out
+}
+
 enum Job {
     Table(Case),
     Small(u64, usize),
@@ -578,7 +610,7 @@ fn job(j: &Job, drv: &mut Drv, rep: &mut Report) {
 }
 
 pub fn rule() -> &'static str {
-    "(1) key/byte separators and successors on generated key pairs (shared prefixes, adjacent bytes, 0xff runs); (2) blocks with restart intervals 1,2,3,16; (3) tables built by the real TableBuilder on SimFs from generated sorted entry sets (empty/one-byte/0xff keys, shared prefixes, many versions per key, tombstones, values empty..multi-block) x max_block_size 16 B..1 MiB x Bloom bits 1..64: dump vs model, lookups at every (key, bound) around every entry, random cursor programs with reversals; (4) the table's filter block. Non-trivial = at least two entries / distinct keys; distinct by case text."
+    "(1) key/byte separators and successors on generated key pairs (shared prefixes, adjacent bytes, 0xff runs); (2) blocks with restart intervals 1,2,3,16; (3) tables built by the real TableBuilder on SimFs from generated sorted entry sets (empty/one-byte/0xff keys, shared prefixes, many versions per key, tombstones, values empty..multi-block; plus long tables of 150-700 keys with incompressible values spanning many 2 KiB filter ranges) x max_block_size 16 B..1 MiB x Bloom bits 1..64: dump vs model, lookups at every (key, bound) around every entry, random cursor programs with reversals; (4) the table's filter block. Non-trivial = at least two entries / distinct keys; distinct by case text."
 }
 
 pub fn run(tier: &str, seed: u64, drv_path: &str, replay: Option<&str>, corpus: &str) -> Report {
@@ -613,6 +645,12 @@ pub fn run(tier: &str, seed: u64, drv_path: &str, replay: Option<&str>, corpus: 
         let maxk = if rng.chance(1, 5) { 60 } else { 14 };
         let entries = gen_entries(&mut rng, maxk, big);
         jobs.push(Job::Table(Case { block, bloom: rng.range(1, 64) as usize, entries, pseed: rng.next() }));
+    }
+    let nlong = if thorough { 600 } else { 60 };
+    for _ in 0..nlong {
+        let block = *rng.pick(&[64usize, 100, 200, 256, 512, 1024, 4096]);
+        let entries = gen_long_entries(&mut rng);
+        jobs.push(Job::Table(Case { block, bloom: rng.range(4, 16) as usize, entries, pseed: rng.next() }));
     }
     let nsmall = if thorough { 200 } else { 32 };
     for _ in 0..nsmall {
